@@ -1,6 +1,10 @@
 """C09 — modular and number-theoretic integer functions and scalar recodings are correct."""
 from props.bngen import hx, magnitude, signed
 from props.c01 import _cfg
+from props import c09_gcd, c09_mxp, c09_smb, c09_mod
+
+FAMILIES = (c09_gcd, c09_mxp, c09_smb, c09_mod)
+EXTRA_THEOREM_MODULES = ["RelicVerif.Props.C09Gcd", "RelicVerif.Props.C09Mxp", "RelicVerif.Props.C09Smb", "RelicVerif.Props.C09Mod"]
 
 TRUSTED = [
     "class A/B (modelled in Model/Rec.lean and proved): bn_rec_win/slw/naf/reg/jsf — value, digit set, length, sparsity",
@@ -199,7 +203,7 @@ CORPUS = ["nt_rec win 4 1", "nt_rec win 2 0", "nt_inv -1 5", "nt_smb jac 4 5", "
 
 
 def _exe(ctx, cfg):
-    return ctx.oracle(cfg, defs=("ORACLE_NT",), sources=("oracle.c", "ops_bn.c", "ops_nt.c"), tag="_nt")
+    return ctx.oracle(cfg, defs=("ORACLE_NT", "ORACLE_EXTRA2=ops_nt_mxp"), sources=("oracle.c", "ops_bn.c", "ops_nt.c", "ops_nt_mxp.c"), tag="_nt")
 
 
 def streams(ctx, scale=1):
@@ -209,6 +213,8 @@ def streams(ctx, scale=1):
         exe = _exe(ctx, cfg)
         hdr, kv = _cfg(exe)
         lines = ["cfg"] + CORPUS + gen_lines(ctx.rng, kv["w"], kv["size"], kv["digs"], n)
+        for fam in FAMILIES:
+            lines += list(fam.CORPUS) + fam.gen(ctx.rng, kv["w"], kv["size"], kv["digs"], (300 if ctx.tier == "quick" else 8000) * scale)
         res.append({"name": "nt-" + cfg, "cfg": cfg, "exe": exe, "lines": lines})
     return res
 
@@ -220,6 +226,10 @@ def search_streams(ctx, mfail):
 def replay_streams(ctx, rp):
     cfg = rp.get("config", "base")
     return [{"name": "replay", "cfg": cfg, "exe": _exe(ctx, cfg), "lines": ["cfg"] + rp.get("op_lines", [])}]
+
+
+for _fam in FAMILIES:
+    TRUSTED = TRUSTED + list(_fam.TRUSTED)
 
 
 def nontrivial(r):
